@@ -5,7 +5,7 @@ from __future__ import annotations
 import ast
 
 from ..report import Cx, Ob, describe, obligation
-from ..rules import API, CONV, CURIE_SIDE, URI_SIDE, Prov, _container_fields, pair_compare_cover, where
+from ..rules import API, CONV, CURIE_SIDE, URI_SIDE, Prov, _container_fields, fewer_than_two, guard_atoms, pair_compare_cover, where
 from ..summ import describe_path
 from ..terms import callee_name, is_const, op, show, subterms
 
@@ -55,14 +55,15 @@ def d1(cx: Cx, ob: Ob) -> None:
     for cls, (fn, call_t, ctx) in dets.items():
         line = ctx.path.out[2]
         ob.site(f"{where(init, line)} {init.qualname}", f"raise {cls}({show(call_t)[:50]})")
-        flags = {g.a[1]: g.b for g in ctx.guards if g.kind == "guard" and op(g.a) == "param"}
+        atoms = guard_atoms(ctx.guards)
+        flags = {a[1]: pol for a, pol in atoms if op(a) == "param"}
         if flags.get("strict") is not True:
             ob.violate(init.qualname, where(init, line), f"{cls} is not raised under the `strict` test", witness=describe_path(ctx), detail=f"strict-guard:{cls}")
         if fn is not None and stored and call_t[2][:1] != (stored[0],):
             ob.violate(init.qualname, where(init, line), f"the {cls} detector runs on `{show(call_t[2][0])[:50] if call_t[2] else '?'}`, not on the record list the converter keeps (`{show(stored[0])[:50]}`)", detail=f"detector-arg:{cls}")
         # raised exactly when the detector result is non-empty
-        last = [g for g in ctx.guards if g.kind == "guard" and g.a == call_t]
-        if not last or last[-1].b is not True:
+        last = [pol for a, pol in atoms if a == call_t]
+        if not last or last[-1] is not True:
             ob.violate(init.qualname, where(init, line), f"{cls} is not raised exactly when its detector reports duplicates", witness=describe_path(ctx), detail=f"raise-guard:{cls}")
     sp = init.param("strict")
     if sp is None or not (isinstance(sp.default, ast.Constant) and sp.default.value is True):
@@ -70,18 +71,30 @@ def d1(cx: Cx, ob: Ob) -> None:
     uri_call = dets["DuplicateURIPrefixes"][1]
     pre_call = dets["DuplicatePrefixes"][1]
     pctx = dets["DuplicatePrefixes"][2]
-    if not any(g.kind == "guard" and g.a == uri_call and g.b is False for g in pctx.guards):
+    if not any(a == uri_call and pol is False for a, pol in guard_atoms(pctx.guards)):
         ob.violate(init.qualname, where(init, pctx.path.out[2]), "DuplicatePrefixes can be raised before the URI-prefix clashes have been checked (URI clashes must be reported first)", witness=describe_path(pctx), detail="order")
     # domination of index building
     n = 0
     for ev, ctx in s.events("store"):
         if not (op(ev.a) == "attr" and ev.a[1] == me):
             continue
-        flags = {g.a[1]: g.b for g in ctx.guards if g.kind == "guard" and op(g.a) == "param"}
-        if flags.get("strict") is False:
+        atoms = guard_atoms(ctx.guards)
+        if any(op(a) == "param" and a[1] == "strict" and pol is False for a, pol in atoms):
+            continue
+        recs_arg = uri_call[2][0] if uri_call[2] else None
+        # pair detectors are vacuous on fewer than two records: such paths need no check
+        if any(fewer_than_two(a, pol, recs_arg) is not None for a, pol in atoms):
+            continue
+        # a false conjunction `strict and <two or more records>`: either way no check is needed
+        exempt = False
+        for g in ctx.guards:
+            if g.kind == "guard" and op(g.a) == "and" and g.b is False:
+                if all((op(x) == "param" and x[1] == "strict") or fewer_than_two(x, False, recs_arg) is not None for x in g.a[1]):
+                    exempt = True
+        if exempt:
             continue
         n += 1
-        passed = {g.a for g in ctx.guards if g.kind == "guard" and g.b is False}
+        passed = {a for a, pol in atoms if pol is False}
         for name, c in (("URI", uri_call), ("prefix", pre_call)):
             if c not in passed:
                 ob.violate(init.qualname, where(init, ev.line), f"self.{ev.a[2]} is assigned on a strict path that has not passed the {name} duplicate check", witness=describe_path(ctx), detail=f"dominate:{name}")
